@@ -121,3 +121,11 @@ def rules(t):
     out.append(W5.slice_scan_all(t, "C01.m"))
     out.append(W5.ordered_flag(t, "C01.n"))
     return out
+
+_rules_C01_w7b = rules
+def rules(t, *a, **kw):
+    import rules.wave7 as W7
+    out = _rules_C01_w7b(t, *a, **kw)
+    out.append(W7.no_silent_drop(t, "C01.o"))
+    out.append(W7.resend_scan_reached(t, "C01.p"))
+    return out
